@@ -172,14 +172,14 @@ func TestVerifLoadTasksBounded(t *testing.T) {
  {"name":"fs","chain_id":11,"url":"http://127.0.0.1:1","batch_size":7,"concurrency":2},
  {"name":"bonly","chain_id":12,"url":"http://127.0.0.1:1","batch_size":13},
  {"name":"conly","chain_id":13,"url":"http://127.0.0.1:1","concurrency":4},
- {"name":"zero","chain_id":14,"url":"http://127.0.0.1:1","concurrency":0,"batch_size":6}],
+ {"name":"zero","url":"http://127.0.0.1:1","concurrency":0,"batch_size":6}],
 "integrations":[
  {"name":"fa","enabled":true,"sources":[{"name":"bonly","start":77,"stop":77}],"table":` + tbl("tfa") + `,"event":` + evTransfer + `}]}`
 	wantFam2 := map[string]string{
 		"fs/da":    "start=100 stop=200 chain=11 batch=7 conc=2 topic=" + transferHash,
 		"bonly/db": "start=5 stop=0 chain=12 batch=13 conc=1 topic=" + approvalHash,
 		"conly/dd": "start=9 stop=9 chain=13 batch=1 conc=4 topic=" + approvalHash,
-		"zero/dd":  "start=9 stop=3 chain=14 batch=6 conc=1 topic=" + approvalHash,
+		"zero/dd":  "start=9 stop=3 chain=0 batch=6 conc=1 topic=" + approvalHash,
 		"bonly/fa": "start=77 stop=77 chain=12 batch=13 conc=1 topic=" + transferHash,
 	}
 	perms := [][]int{{0, 1, 2, 3}, {1, 0, 3, 2}, {3, 2, 1, 0}, {2, 3, 0, 1}, {0}, {1}, {3}}
@@ -206,6 +206,9 @@ func TestVerifLoadTasksBounded(t *testing.T) {
 			topic := ""
 			if tp := task.filter.Topics(); len(tp) > 0 && len(tp[0]) > 0 {
 				topic = tp[0][0]
+			}
+			if wctx.SrcName(task.ctx) != task.srcName || wctx.IGName(task.ctx) != task.destConfig.Name || wctx.ChainID(task.ctx) != task.srcChainID {
+				fail("second family, rows %v: task %s/%s (chain %d) carries context names %s/%s chain %d", perm, task.srcName, task.destConfig.Name, task.srcChainID, wctx.SrcName(task.ctx), wctx.IGName(task.ctx), wctx.ChainID(task.ctx))
 			}
 			got[task.srcName+"/"+task.destConfig.Name] = fmt.Sprintf("start=%d stop=%d chain=%d batch=%d conc=%d topic=%s", task.start, task.stop, task.srcChainID, task.batchSize, task.concurrency, topic)
 		}
